@@ -11,7 +11,10 @@ import time
 from .. import common
 
 
-def _merge(res, modname, r):
+def _merge(res, modname, r, only=None):
+    """only: optional set of oracle names of this script that state THIS property (the others are ignored)"""
+    if only is not None:
+        r = dict(r, oracle={k: v for k, v in (r.get("oracle") or {}).items() if k in only}, corr={})
     for op, d in (r.get("corr") or {}).items():
         c = res.corr.setdefault(op, {"cases": 0, "disagreements": 0})
         c["cases"] += int(d.get("cases", 0))
@@ -41,12 +44,13 @@ def _merge(res, modname, r):
 
 
 def make(pid, props, targets, diffs, trusted, assumptions=(), extra_run=None, tables=None, known_matcher=None):
-    """diffs: list of (module name, n_quick, n_thorough)."""
+    """diffs: list of (module name, n_quick, n_thorough[, set of oracle names to keep])."""
+    diffs = [tuple(d) + (None,) * (4 - len(d)) for d in diffs]
 
     def run(ctx, res):
         if extra_run:
             extra_run(ctx, res)
-        for modname, nq, nt in diffs:
+        for modname, nq, nt, only in diffs:
             mod = importlib.import_module(modname)
             n = nq if ctx.tier == "quick" else nt
             t0 = time.time()
@@ -60,20 +64,20 @@ def make(pid, props, targets, diffs, trusted, assumptions=(), extra_run=None, ta
                 res.failures.append({"kind": "corr", "what": f"{modname.split('.')[-1]}:crash", "case": None, "model": None, "impl": f"{type(e).__name__}: {e}", "module": modname, "detail": tb[-1500:]})
                 continue
             res.extra.setdefault("script_wall_s", {})[modname.split(".")[-1]] = round(time.time() - t0, 1)
-            _merge(res, modname, r)
+            _merge(res, modname, r, only)
 
     def search(ctx, res, corr_new):
         """A proof or the correspondence broke: look harder for an input on which the real code
         violates the property (direct oracles only), with fresh seeds and more cases."""
         for k in range(1, 4):
-            for modname, nq, nt in diffs:
+            for modname, nq, nt, only in diffs:
                 mod = importlib.import_module(modname)
                 try:
                     r = mod.run(seed=ctx.seed * 1000 + 7919 * k, n=max(nq, 400) * 3, driver=common.DRIVER, thorough=False)
                 except Exception:
                     continue
                 sub = {"oracle": r.get("oracle"), "corr": {}}
-                _merge(res, modname, sub)
+                _merge(res, modname, sub, only)
             if any(f["kind"] == "oracle" for f in res.failures):
                 return
 
